@@ -226,7 +226,7 @@ def reduceVal (F : Fns α) (t : TT) (xs : List α) : Option α :=
 /-- `UDQScalarFunction::eval` -/
 def scalarFn (F : Fns α) (t : TT) (u : USet α) : Except Unit (USet α) :=
   match definedValues u with
-  | [] => .ok USet.empty
+  | [] => .ok (USet.scalar F none)     -- no defined element: an undefined scalar
   | xs =>
     match reduceVal F t xs with
     | some v => .ok (USet.scalar F (some v))
